@@ -1,7 +1,7 @@
 import LPVerif.Lemmas.Gen
 import LPVerif.Lemmas.Callable
 import LPVerif.Generated.WrapTables
-import LPVerif.Model.Prof
+import LPVerif.Lemmas.Prof
 /-!
 # C03 — decorating a callable never changes what it does
 
@@ -116,11 +116,14 @@ theorem impl_table :
 /-! ### registration and enabling -/
 
 /-- registering changes a function's bytecode only by appended NOPs (same base bytes, same label, same lines) -/
-theorem register_inert (dupes : List (Core.Blk × Nat)) (code : Prof.Code) :
-    (Prof.padStep dupes code).1.blk.base = code.blk.base ∧ (Prof.padStep dupes code).1.label = code.label ∧
-    (Prof.padStep dupes code).1.lines = code.lines ∧ code.blk.pad ≤ (Prof.padStep dupes code).1.blk.pad := by
+theorem register_inert (dupes : List (Core.Blk × Nat)) (taken : List Core.Blk) (code : Prof.Code) :
+    (Prof.padStep dupes taken code).1.blk.base = code.blk.base ∧ (Prof.padStep dupes taken code).1.label = code.label ∧
+    (Prof.padStep dupes taken code).1.lines = code.lines ∧ code.blk.pad ≤ (Prof.padStep dupes taken code).1.blk.pad := by
   unfold Prof.padStep
-  split <;> simp
+  split
+  · refine ⟨rfl, rfl, rfl, ?_⟩
+    exact Nat.le_trans (Nat.le_add_right _ _) (Prof.findFree_ge _ _ _ _)
+  · simp
 
 /-- enabling never raises, in any state (tool id free, held by this profiler, or — outside this model — by another) -/
 theorem enable_never_raises (s : Prof.St) (t : Nat) : ∃ s', s.enableByCount t = .ok s' := by
